@@ -915,6 +915,22 @@ func c08ItemLoops(c *Ctx, a *sketchAnchors) {
 			if isDefault[p] {
 				continue
 			}
+			// decided by the layout selector alone, however the test is written (before the dispatch, as a range test …)
+			modeOnly, sawMode := true, false
+			for _, cd := range p.Conds {
+				cd.Term.walk(func(x *Term) bool {
+					switch {
+					case x.isParam(len(f.Params) - 1):
+						sawMode = true
+					case x.Op == "param", x.Op == "load", x.Op == "field", x.Op == "call", x.Op == "invoke", x.Op == "extract":
+						modeOnly = false
+					}
+					return true
+				})
+			}
+			if modeOnly && sawMode {
+				continue
+			}
 			bad = "an error of the decoder's own making on a known layout: " + describeRet(p) + " on [" + pathSig(p) + "]"
 		}
 		c.R.check(bad == "", rule, shortFn(f)+"/refuses-only-what-the-primitives-refuse", shortFn(f), c.fpos(f),
